@@ -252,3 +252,42 @@ def evaluate_messages(ctx, oid):
             return out
     out['evaluated'] = True
     return out
+
+
+def composed_messages(ctx):
+    """what ``compose`` of the two StartTLS classes hands to the ASN.1 encoder: {class name: the mapping given to ``LDAPMessage``}
+    (evaluated from the method's own statements, helper methods through the class chain; the encoder is a model that keeps the
+    mapping), or {} for a class that leaves the evaluable subset"""
+    from .miniexec import Evaluator, Native, Raised, Unsupported, class_call_hook, EnumVal
+    out = {}
+    for cname in ('LDAPExtendedRequestStartTLS', 'LDAPExtendedResponseStartTLS'):
+        c = ctx.model.try_cls(cname)
+        f = c.resolve('compose') if c is not None else None
+        if f is None or not isinstance(getattr(f, 'node', None), ast.FunctionDef):
+            continue
+        seen = {}
+
+        class Encoded(Native):
+            def dump(self, *a, **k):
+                return b'\x30\x00'
+
+        def extra(n, ev, seen=seen):
+            if ast.unparse(n.func) == 'LDAPMessage' and len(n.args) == 1:
+                seen['message'] = ev.ev(n.args[0])
+                return Encoded()
+            return NotImplemented
+
+        class Me(Native):
+            _repo_class = c
+        me = Me()
+        rc = ctx.model.try_cls('LDAPResultCode')
+        if rc is not None and rc.enum_members:
+            me.result_code = EnumVal.of(rc, next(iter(rc.enum_members)))
+        hook = class_call_hook(c, extra, ctx.model)
+        try:
+            Evaluator({'self': me}, hook, hook.name_hook_for(f.module, None)).function(f.node)
+        except (Unsupported, Raised, AttributeError, TypeError, KeyError):
+            continue
+        if isinstance(seen.get('message'), dict):
+            out[cname] = seen['message']
+    return out
